@@ -173,7 +173,7 @@ theorem C05_illtyped (env : Env) (rf : Form → MState → List Glyph × Bool) (
     (tys : List Ty) (hsig : sig gs i.op = some tys) (hlen : i.args.length ≤ tys.length) (hb : NoBool i.args)
     (hw : wellTyped tys i.args = false) (hargs : m.argstack = [])
     (hn : m.ncs.2 = gs.fillN) (hs : m.scs.2 = gs.strokeN)
-    (hfn : gs.fillN = 1 ∨ gs.fillN = 3 ∨ gs.fillN = 4) (hsn : gs.strokeN = 1 ∨ gs.strokeN = 3 ∨ gs.strokeN = 4) :
+    (hfn : 0 < gs.fillN) (hsn : 0 < gs.strokeN) :
     execToks env rf m i.toks = (m, []) := by
   rw [execToks_instr]
   exact illtyped_noop env rf m gs i.op tys i.args hsig hlen hb hw hargs hn hs hfn hsn
